@@ -40,8 +40,9 @@ deriving DecidableEq, Repr
 def posClosable (cfg : InsCfg) (tplusOn : Bool) (p : Pos) (openClosing : Int) : Int :=
   if !cfg.isFuture && tplusOn then p.qty - openClosing - p.nonClosable else p.qty - openClosing
 
-/-- `Position.today_closable`: today's quantity minus the unfilled quantity of the open CLOSE_TODAY orders -/
-def posTodayClosable (p : Pos) (openCloseToday : Int) : Int := p.qty - p.oldQty - openCloseToday
+/-- `Position.today_closable`: today's quantity minus the unfilled quantity of the open CLOSE_TODAY orders, and (repaired) never
+more than `closable`: lots already committed to resting closing orders of either kind cannot be closed again as today's -/
+def posTodayClosable (p : Pos) (openCloseToday : Int) (closableAll : Int) : Int := min (p.qty - p.oldQty - openCloseToday) closableAll
 
 /-- `PositionValidator.validate_submission` -/
 def positionVeto (o : OrderIn) (closable todayClosable : Int) : Bool :=
